@@ -1,41 +1,204 @@
 """C01 — encode/decode round trip reproduces the geometry exactly (modulo quantization)."""
 from vlib.engine import Case
-from . import e2e, geomgen as G
+from . import e2e, e2etags, ebcases, geomgen as G, kdcases, topo2, seqenc_cases
 
 ID = "C01"
 LEVEL = "proof"
-LEAN_MODULES = ["DracoProps.C01"]
-RULE = ("generated point clouds (<=300 points quick / <=2000 thorough) and meshes (all topology families of "
-        "props/geomgen.py: grids, closed surfaces, k faces on an edge, bow-ties, soups, components, empty / degenerate / "
-        "duplicate / flipped faces, isolated points, attribute seams, non-deduplicated points) with 1..4 attributes of all "
-        "types x random option sets (Encoder and ExpertEncoder API: method, speeds, per-attribute quantization, "
-        "prediction scheme, built-in compression on/off, edgebreaker sub-method, split-on-seams, compressed connectivity); "
-        "each case: real encode, real decode (plain and with all transforms skipped), model decode of the same bytes "
-        "(must agree token for token where the model covers the method), and the executable Lean specification "
-        "RoundTripOK evaluated on the implementation's outputs; distinct op lines")
+LEAN_MODULES = ["DracoProps.C01", "DracoProps.C01Kd", "DracoProps.C01Eb"]
+RULE = ("(a) random: generated point clouds (<=300 points quick / <=2000 thorough) and meshes (all topology families of "
+        "props/geomgen.py and props/topo2.py: grids, closed surfaces, tori with irregular diagonals, genus-2 sums, "
+        "grid patches, vertex fans, k faces on an edge, bow-ties, soups, components, empty / degenerate / duplicate / "
+        "flipped faces, isolated points, attribute seams, non-deduplicated points) with 1..4 attributes of all types x "
+        "random option sets (Encoder and ExpertEncoder API: method, speeds, per-attribute quantization incl. explicit "
+        "boxes, prediction scheme, built-in compression on/off, edgebreaker sub-method, split-on-seams, compressed "
+        "connectivity, symbol coding); (b) stratified: every (geometry kind, method, sub-method) x every encoder speed "
+        "0..10, every data type int8..uint32/float32 x 1..5 components under every method, every prediction scheme "
+        "the API accepts per attribute type, built-in entropy coding off, split-on-seams 0/1 on seam meshes, handle-rich "
+        "surfaces, special topologies. Each case: real encode, real decode (plain and with all transforms skipped), "
+        "model decode of the same bytes (must agree token for token where the model covers the method), and the "
+        "executable Lean specification RoundTripOK evaluated on the implementation's outputs; distinct op lines; "
+        "input_distribution lists the member of every option family each case used and the stream class produced")
 THEOREM_BACKED = "see evidence.coverage.theorems"
-CORRESPONDENCE_ONLY = "paths reported as model:unsupported_* in input_distribution are checked by RoundTripOK on the implementation's output only"
+CORRESPONDENCE_ONLY = ("paths reported as stream:*:model:unsupported_* in input_distribution are checked by RoundTripOK on "
+                       "the implementation's output only")
 EXPLANATION = ("layer theorems (entropy coder, transforms, quantizers, varints) + executable specification; the composed "
                "end-to-end theorem covers the sequential paths as far as DracoProps.C01 states")
-TIMEOUT = 3000
+TIMEOUT = 900
+CHECKS = {"rt", "valid", "consumed", "corr"}
+
+
+def set_tok(toks, key, val):
+    """replace / add / remove (val None) an option token"""
+    out = [t for t in toks if not t.startswith(key + "=")]
+    if val is not None:
+        out.append(f"{key}={val}")
+    return out
+
+
+def drop_pred(toks):
+    return [t for t in toks if not (t[0] == "p" and t[1:2].isdigit())]
+
+
+def options(rng, g, method=None, expert=None, quant_all=False, **force):
+    """rand_options with some families pinned; force: token key -> value (None removes the token)"""
+    while True:
+        toks, info = e2e.rand_options(rng, g, force_method=method, quant_prob=1.0 if quant_all else 0.7)
+        if expert is None or info["expert"] == expert:
+            break
+    for k, v in force.items():
+        toks = set_tok(toks, k.replace("__", ":"), v)
+    info["track"] = any(t == "track=1" for t in toks)
+    return toks, info
+
+
+def case(g, toks, info, extra_tags=()):
+    c = e2e.make_case(g, toks, info, CHECKS,
+                      tags=tuple(e2etags.option_tags(g, toks, info)) + ("fam:" + getattr(g, "family", "pc"),) + tuple(extra_tags))
+    c.mtag = e2etags.result_tag(c)
+    return c
+
+
+def spec_of(rng, t, dt, nc, uid):
+    return (t, G.DT[dt], nc, False, uid)
 
 
 def generate(rng, tier):
     cases = []
-    n = 1500 if tier == "thorough" else 260
-    size = 2000 if tier == "thorough" else 300
-    for i in range(n):
-        is_mesh = rng.random() < 0.6
+    thorough = tier == "thorough"
+    size = 2000 if thorough else 300
+    # ---- (a) random
+    for i in range(1200 if thorough else 200):
+        r = rng.random()
         sz = rng.choice([3, 8, 20, 60, size])
-        g = G.rand_mesh(rng, sz) if is_mesh else G.rand_point_cloud(rng, sz)
+        if r < 0.4:
+            g = G.rand_mesh(rng, sz)
+        elif r < 0.6:
+            g = G.rand_mesh(rng, sz, topo=topo2.rand_topology2(rng))
+        else:
+            g = G.rand_point_cloud(rng, sz)
         toks, info = e2e.rand_options(rng, g)
-        fam = getattr(g, "family", "pc")
-        c = e2e.make_case(g, toks, info, {"rt", "valid", "consumed", "corr"},
-                          tags=("mesh" if is_mesh else "pc", "fam:" + fam, "expert" if info["expert"] else "encoder"))
-        c.mtag = e2e.model_support_tag
-        cases.append(c)
+        cases.append(case(g, toks, info, ("gen:random",)))
+    reps = 4 if thorough else 1
+    for _ in range(reps):
+        # ---- (b1) every method class x every encoder speed (decoder speed random)
+        for kind, method, sub in (("pc", 0, None), ("pc", 1, None), ("mesh", 0, None), ("mesh", 1, 0), ("mesh", 1, 2), ("mesh", None, None), ("pc", None, None)):
+            for es in range(11):
+                if kind == "pc":
+                    g = G.rand_point_cloud(rng, rng.choice([8, 40, 150]))
+                else:
+                    g = G.rand_mesh(rng, rng.choice([8, 30, 80]), topo=topo2.rand_topology2(rng) if rng.random() < 0.4 else None)
+                toks, info = options(rng, g, method=method, expert=True if sub is not None else None,
+                                     quant_all=(kind == "pc" and method != 0),
+                                     speed=f"{es},{rng.randint(0, 10)}", submethod=sub)
+                cases.append(case(g, toks, info, ("gen:method-x-speed",)))
+        # ---- (b2) every data type x component count under every method
+        for dt in ("i8", "u8", "i16", "u16", "i32", "u32", "f32"):
+            for kind, method in (("pc", 0), ("pc", 1), ("mesh", 0), ("mesh", 1)):
+                nc = rng.choice([1, 2, 3, 4, 5])
+                specs = [spec_of(rng, G.POSITION, rng.choice(["f32", "f32", "i16", "i32"]), 3, 0),
+                         spec_of(rng, G.GENERIC, dt, nc, 1),
+                         spec_of(rng, rng.choice([G.GENERIC, G.COLOR, G.TEX_COORD]), dt, rng.randint(1, 4), 2)]
+                if kind == "pc":
+                    g = G.rand_point_cloud(rng, rng.choice([6, 40]), specs=specs)
+                else:
+                    g = G.rand_mesh(rng, rng.choice([8, 30]), specs=specs)
+                toks, info = options(rng, g, method=method, quant_all=(kind == "pc" and method == 1))
+                cases.append(case(g, toks, info, ("gen:datatype-x-method",)))
+        # ---- (b3) forced prediction schemes (those CheckPredictionScheme accepts for the attribute type)
+        for method in (0, 1):
+            for t, dt, nc, schemes in ((G.POSITION, "f32", 3, [-2, 0, 1, 4]), (G.TEX_COORD, "f32", 2, [-2, 0, 1, 4, 5]),
+                                       (G.NORMAL, "f32", 3, [-2, 0, 6]), (G.GENERIC, "i16", 2, [-2, 0, 1, 4]),
+                                       (G.COLOR, "u8", 4, [0, 1, 4])):
+                for sch in schemes:
+                    specs = [spec_of(rng, G.POSITION, "f32", 3, 0)]
+                    if t != G.POSITION:
+                        specs.append(spec_of(rng, t, dt, nc, 1))
+                    g = G.rand_mesh(rng, rng.choice([8, 30, 80]), specs=specs,
+                                    topo=topo2.rand_topology2(rng) if rng.random() < 0.3 else None)
+                    toks, info = options(rng, g, method=method, quant_all=rng.random() < 0.8)
+                    toks = drop_pred(toks)
+                    idx = 0 if t == G.POSITION else 1
+                    toks.append(f"p{idx if info['expert'] else t}={sch}")
+                    cases.append(case(g, toks, info, ("gen:forced-prediction",)))
+        # ---- (b4) built-in entropy coding off / split-on-seams / symbol coding, on meshes with seams and point clouds
+        for builtin in (0, 1):
+            for kind, method in (("pc", 0), ("pc", 1), ("mesh", 0), ("mesh", 1)):
+                g = G.rand_point_cloud(rng, 40) if kind == "pc" else G.rand_mesh(rng, 40)
+                toks, info = options(rng, g, method=method, expert=True, quant_all=(kind == "pc" and method == 1), builtin=builtin)
+                cases.append(case(g, toks, info, ("gen:builtin",)))
+        for split in (0, 1):
+            for es in (0, 3, 5, 6, 9):
+                specs = [spec_of(rng, G.POSITION, "f32", 3, 0), spec_of(rng, G.TEX_COORD, "f32", 2, 1),
+                         spec_of(rng, rng.choice([G.NORMAL, G.GENERIC]), "f32", 3, 2)]
+                g = G.rand_mesh(rng, 40, specs=specs, topo=topo2.rand_topology2(rng) if rng.random() < 0.5 else None)
+                toks, info = options(rng, g, method=1, expert=True, speed=f"{es},{rng.randint(0, 10)}", g__split_mesh_on_seams=split)
+                cases.append(case(g, toks, info, ("gen:split-on-seams",)))
+        # ---- (b5) surfaces with handles / many boundary loops (several topology split events per symbol)
+        for _ in range(40):
+            fam = rng.choice(["torus", "torus", "handles", "grid_patch"])
+            nv, f = {"torus": topo2.topo_torus, "handles": topo2.topo_handles, "grid_patch": topo2.topo_grid_patch}[fam](rng)
+            g = G.rand_mesh(rng, 0, topo=(fam, nv, f), specs=G.rand_att_specs(rng, max_atts=2))
+            toks, info = options(rng, g, method=1)
+            cases.append(case(g, toks, info, ("gen:handles",)))
+        # ---- (b6) special topologies under every method
+        for method in (0, 1):
+            for topo in (("special_empty", 0, []), ("special_empty", 3, []), ("special_one", 3, [(0, 1, 2)]),
+                         ("special_degenerate", 4, [(0, 1, 2), (1, 1, 3), (2, 2, 2), (0, 2, 3)]),
+                         ("special_all_degenerate", 3, [(0, 0, 1), (2, 2, 2)]),
+                         ("special_dup", 4, [(0, 1, 2), (0, 1, 2), (1, 2, 0), (0, 2, 3)]),
+                         ("special_flipped", 4, [(0, 1, 2), (2, 1, 0), (0, 2, 3)])):
+                g = G.rand_mesh(rng, 0, topo=topo, isolated=rng.random() < 0.5, no_dedup=rng.random() < 0.5)
+                toks, info = options(rng, g, method=method)
+                cases.append(case(g, toks, info, ("gen:special-topology",)))
+        for method in (0, 1):
+            specs = G.rand_att_specs(rng)
+            g = G.Geom(False, 0, [], [G.Attr(t, d, c, nz, uid, 0, None, b"") for (t, d, c, nz, uid) in specs])
+            toks, info = options(rng, g, method=method, quant_all=True)
+            cases.append(case(g, toks, info, ("gen:special-topology",)))
+    # encoder model of the sequential methods vs. the C++ encoders, byte for byte (DracoModel/SeqEncoder.lean)
+    cases += seqenc_cases.cases(rng, 600 if tier == "thorough" else 150, 2000 if tier == "thorough" else 300)
+    # the Edgebreaker decoder model driven through every branch on purpose (standard / valence traversal, split
+    # events, holes, seams, all mesh prediction schemes); reached branches show as eb:* in input_distribution
+    cases += ebcases.cases(rng, tier)
+    # kd-tree: every level 0..6, dimensions 1..20, all integer types at their limits, 1..30 bit quantization, and the
+    # tree coder alone (model encoder bytes == DynamicIntegerPointsKdTreeEncoder bytes)
+    cases += kdcases.kd_cases(rng, tier) + kdcases.kd_core_cases(rng, tier)
+    # sequential meshes whose trailing points are used by no face: the index width follows num_points
+    cases += isolated_tail_cases(rng, tier)
     return cases
 
 
+def isolated_tail_cases(rng, tier):
+    """sequential mesh, faces use only the first points, the point count crosses 256 (and 65536 in the thorough tier)"""
+    out = []
+    sizes = [(rng.randint(20, 200), rng.randint(257, 400)) for _ in range(6)]
+    sizes += [(255, 256), (256, 257), (120, 300)]
+    if tier == "thorough":
+        sizes += [(rng.randint(20, 60000), 65537 + rng.randint(0, 50)), (65536, 65537)]
+    for used, total in sizes:
+        base = G.rand_mesh(rng, min(used, 60), specs=[(G.POSITION, G.DT["f32"], 3, False, 0)])
+        if base.num_points == 0 or not base.faces:
+            continue
+        # spread the faces over point ids < used, then append unused points
+        ids = sorted(rng.sample(range(used), min(used, base.num_points))) if used >= base.num_points else list(range(base.num_points))
+        remap = {i: ids[i] for i in range(len(ids))}
+        faces = [tuple(remap.get(v, v) for v in f) for f in base.faces]
+        n = max(total, max(max(f) for f in faces) + 1)
+        a = base.atts[0]
+        import struct
+        vals = b"".join(struct.pack("<3f", *(G.f32(rng.uniform(-1000, 1000)) for _ in range(3))) for _ in range(n))
+        att = G.Attr(a.att_type, a.dtype, a.ncomp, a.normalized, a.uid, n, None, vals)
+        g = G.Geom(True, n, faces, [att])
+        g.family = "isolated_tail"
+        for cc in (0, 1):
+            toks = ["expert=1", "method=0", f"g:compress_connectivity={cc}", f"speed={rng.randint(0, 10)},{rng.randint(0, 10)}"]
+            info = {"expert": True, "req": {}, "track": False, "skip": None}
+            c = e2e.make_case(g, toks, info, {"rt", "valid", "consumed", "corr"}, tags=("mesh", "fam:isolated_tail"))
+            c.mtag = e2e.model_support_tag
+            out.append(c)
+    return out
+
+
 def replay_cases(lines):
-    return [Case(l, model=False) for l in lines]
+    from . import e2ereplay
+    return [e2ereplay.case_from_op(l, CHECKS) for l in lines]
